@@ -1,6 +1,9 @@
 #!/usr/bin/env python3
 """covlines.py <Module> <file.tla> <from_line> <to_line> <tlc coverage outputs...>
-lists the source lines in [from,to] that contain code but on which no expression with count>0 starts or passes."""
+lists the source lines in [from,to] that contain code but on which no evaluated expression starts
+(this TLC omits never-evaluated sub-expressions from the -coverage tree instead of printing ": 0").
+False positives: definition header lines `X(..) ==`, bare ELSE / IN / LET lines, continuation lines.
+Get the outputs with: bin/drift <MC> <cfg> --coverage --keep ; grep -v '^"' <kept>/tlc.out > file"""
 import sys, re
 mod, tla, lo, hi = sys.argv[1], sys.argv[2], int(sys.argv[3]), int(sys.argv[4])
 cov = {}
@@ -13,7 +16,7 @@ for f in sys.argv[5:]:
             if n > 0:
                 cov[a] = max(cov.get(a, 0), n)   # an expression starts on line a
 src = open(tla).read().split("\n")
-for ln in range(lo, hi + 1):
+for ln in range(lo, min(hi, len(src)) + 1):
     t = src[ln - 1]
     code = t.split("\\*")[0].strip()
     if not code or code.startswith("(*") or code.startswith("RECURSIVE") or code.startswith("----"):
